@@ -76,6 +76,9 @@ pub struct Responder {
     now_cache: u64,
     /// send every reply twice (same instant)
     pub duplicate_replies: bool,
+    /// hand out a different token with every get_peers answer (all of them remain valid)
+    pub rotate_tokens: bool,
+    pub tokens_issued: Vec<Vec<u8>>,
 }
 
 impl Responder {
@@ -101,6 +104,8 @@ impl Responder {
             forget: vec![],
             now_cache: 0,
             duplicate_replies: false,
+            rotate_tokens: false,
+            tokens_issued: vec![],
         }
     }
 
@@ -209,10 +214,18 @@ impl Peer for Responder {
             "get_peers" => {
                 let t = p.target.unwrap_or([0; 20]);
                 let vals = if self.values.is_empty() { None } else { Some(self.values.as_slice()) };
-                krpc::response(&p.tid, &self.id, Some(&self.token), vals, &self.nodes_for(&t, from))
+                let tok = if self.rotate_tokens {
+                    let mut tk = self.token.clone();
+                    tk.extend_from_slice(format!("#{}", self.tokens_issued.len() + 1).as_bytes());
+                    self.tokens_issued.push(tk.clone());
+                    tk
+                } else {
+                    self.token.clone()
+                };
+                krpc::response(&p.tid, &self.id, Some(&tok), vals, &self.nodes_for(&t, from))
             }
             "announce_peer" => {
-                if p.token.as_deref() == Some(self.token.as_slice()) {
+                if p.token.as_deref() == Some(self.token.as_slice()) || self.tokens_issued.iter().any(|t| Some(t.as_slice()) == p.token.as_deref()) {
                     self.announced.push((ctx.now_ms, from, p.clone()));
                     krpc::response(&p.tid, &self.id, None, None, &[])
                 } else {
